@@ -414,7 +414,7 @@ def run_inputs(pid, inputs, tag='run', per_chunk_timeout=None, nchunks=NCPU):
             if done < len(todo):
                 obs[todo[done]] = HANG if rc == 124 else ABORT
                 if rc == 124:
-                    budget = min(budget, 60)   # a hang is established: do not wait that long again in this chunk
+                    budget = min(budget, 20)   # a hang is established: do not wait that long again in this chunk
                 todo = todo[done + 1:]
             else:
                 return
@@ -572,7 +572,10 @@ def judge_inputs(prop, inputs, tag):
     else:
         obs, valid = run_inputs(pid, inputs, tag=tag)
     dbg('  impl done')
-    idx = [i for i in range(len(inputs)) if valid[i] and obs[i] is not None]
+    # a hang or a process abort of the real code on a valid input has no counterpart in any model: the input fails
+    stuck = {i: ('the implementation did not return (killed by the watchdog)' if obs[i] == HANG else 'the implementation aborted the process')
+             for i in range(len(inputs)) if valid[i] and obs[i] in (HANG, ABORT)}
+    idx = [i for i in range(len(inputs)) if valid[i] and obs[i] is not None and i not in stuck]
     cof = prop.get('case_of') or (lambda i, o: [i, o])
     cases = [cof(inputs[i], obs[i]) for i in idx]
     res = run_coq_batch(pid, prop['corr'], prop.get('judge', 'judge_all'), cases, tag) if cases else []
@@ -580,6 +583,8 @@ def judge_inputs(prop, inputs, tag):
     verdicts = [None] * len(inputs)
     for i, r in zip(idx, res):
         verdicts[i] = r
+    for i, why in stuck.items():
+        verdicts[i] = [2, why]
     if prop.get('post_batch'):
         prop['post_batch'](inputs, obs, verdicts)
     return obs, verdicts
